@@ -25,8 +25,8 @@ PROP = {
                   "The concurrent part judges only schedules that occur and is not built with -race (the race "
                   "detector run of this package belongs to C05). Trusts bbolt, encoding/json, net/http/httptest.",
     "tests": [
-        ("TestVFC09History", (700, 3000), {"steps": 40}),
-        ("TestVFC09Concurrent", (200, 1000)),
+        ("TestVFC09History", (500, 3000), {"steps": 40}),
+        ("TestVFC09Concurrent", (150, 1000)),
     ],
     "plain": ["TestVFC09Scenarios"],
     "shards": (4, 16),
